@@ -79,7 +79,9 @@ pub fn run(seed: u64, thorough: bool) {
         }
         cs.sort();
         cs.dedup();
-        let maxn = if thorough { 24 } else if shape.heights().iter().any(|h| *h > 5) { 3 } else { 2 };
+        // thorough: up to 24 counters, fewer for the shapes whose every signature costs minutes in Coq
+        let maxn = if thorough { ((1500.0 / shape.sign_cost().max(1.0)) as usize).clamp(4, 24) }
+                   else if shape.heights().iter().any(|h| *h > 5) { 3 } else { 2 };
         if cs.len() > maxn {
             // quick tier: the byte boundary of the leaf index, one roll-over, the last leaf
             let mut keep: Vec<u64> = cs.iter().cloned().filter(|c| [255u64, 256, last].contains(c)).collect();
@@ -112,12 +114,11 @@ pub fn run(seed: u64, thorough: bool) {
 pub fn run_aux(seed: u64, thorough: bool) {
     let mut rng = Rng::new(seed ^ 0x70FA);
     // quick tier: every 6th case is re-computed by the model (each costs one tree of height 10)
-    crate::fam_c10::set_model_every(if thorough { 1 } else { 7 });
+    crate::fam_c10::set_model_every(if thorough { 3 } else { 7 });
     let mut shapes = vec![Shape { hash: "toy_128", levels: vec![(3, 6)] }];
     if thorough {
         shapes.push(Shape { hash: "toy_192", levels: vec![(3, 6), (3, 1)] });
         shapes.push(Shape { hash: "toy_256", levels: vec![(2, 6)] });
-        shapes.push(Shape { hash: "toy_128", levels: vec![(3, 7)] });
     }
     for shape in shapes.iter() {
         let n = shape.n();
